@@ -79,6 +79,12 @@ FIRST = {
     'f08-C16': 'missed by C16 (K3 reported it under C03) -> I1 raw-items: a raw item array taken from a sequence is not read across user code',
     'f10-C19': 'missed -> DC5 uses-the-class-the-stdlib-returns',
     'g01-C01': 'caught', 'g02-C02': 'caught', 'g03-C03': 'caught', 'g06-C06': 'caught (the same change as c06, written independently)',
+    'h01-C04': 'caught', 'h02-C07': 'caught', 'h07-C15': 'caught', 'h08-C16': 'caught', 'h10-C19': 'caught',
+    'h09-C17': 'caught (T3 stores-the-answer); I5 also fired, for a wrong reason - it matched the `it` of try_emplace to the `it` of a later find() by name - and now keys lookups by declaration',
+    'h03-C08': 'caught (M1: the constructor stores no entries), but K3 / K7 / M1 also reported the behaviour-preserving half (a helper that returns (children, node_data) as a pair) -> the arm walker follows pair / structured-binding results of helpers, K7 reads the helper\'s use of the entries element',
+    'h04-C11': 'caught (S1 no-cross: position 1 feeds node_data); S1 payload-only-from-state also reported the harmless `if (t[2].is_none()) node_data = py::none()` -> accepted when the test is on the field\'s own position',
+    'h05-C12': 'idiom alarm only (D4 wanted the mode test on paths where the class is neither dict nor defaultdict) -> D4 follows the class tests; new rule G9 (no memo of lookup answers survives a registration: one-key invalidation of a memo, or a write to a registry member on the lookup path)',
+    'h06-C14': 'missed -> new rule A8 (std::move only takes what the call owns: never a C++ object inside a Python object, a non-const reference parameter, a member of *this)',
     'g09-C09': 'caught', 'g10-C10': 'caught', 'g13-C13': 'caught', 'g18-C18': 'caught', 'g20-C20': 'caught',
     'g05-C05': 'analysis error only (five of the six edits are behaviour-preserving; F2 did not know the form) -> F2 reads `<leaves> if r is tree else treespec.flatten_up_to(r)` and reports the one that hands out `paths`',
     'c03-C03': 'missed by C03 (D2 reported it under C02 / C13) -> D2 now also decides C03',
